@@ -128,6 +128,15 @@ func imapScenarios() []scenario {
 			r := cl.Send("a3", "a3 AUTHENTICATE PLAIN\r\n")
 			return strings.HasPrefix(r.Tagged, "+")
 		}},
+		{"imap", "authenticate-response-fills-the-buffer", "imapAuthWait", func(cl *world.Client, raw net.Conn) bool {
+			// 8192 octets and more without a line end: the server's read buffer is full; whatever it makes of them, the
+			// session must still end when the client goes away or falls silent
+			r := cl.Send("a3", "a3 AUTHENTICATE PLAIN\r\n")
+			ok := strings.HasPrefix(r.Tagged, "+")
+			go send(raw, strings.Repeat("QUJD", 2048+512))
+			time.Sleep(150 * time.Millisecond)
+			return ok
+		}},
 		{"imap", "idle", "imapIdle", func(cl *world.Client, raw net.Conn) bool {
 			ok := login(cl) && cl.Cmd("SELECT INBOX").OK()
 			r := cl.Send("a5", "a5 IDLE\r\n")
@@ -250,6 +259,9 @@ func main() {
 			}
 		}
 	}
+	// SASL deadlines run on real sockets in real time (30 s): two silent clients — one that never says a word, one that went
+	// silent after its first line — are attached now and judged when everything else is done
+	muteDone := muteSASL(w, dir, rep, len(only) > 0)
 	scs := append(imapScenarios(), lmtpScenarios()...)
 	rounds := 1
 	if o.Thorough {
@@ -417,6 +429,9 @@ func main() {
 		shutdownSASL(w, dir, rep, o.Thorough)
 	}
 
+	if muteDone != nil {
+		muteDone()
+	}
 	if len(ops) > 0 {
 		ans, err := hx.RunModel(o.Driver, ops)
 		if err != nil {
@@ -451,7 +466,7 @@ func transportEnds(w *world.World, dir string, rep *hx.Report) {
 	}
 	defer ln.Close()
 	for _, useTLS := range []bool{false, true} {
-		for _, state := range []string{"idle", "command-wait"} {
+		for _, state := range []string{"idle", "command-wait", "authenticate-long-response"} {
 			for _, how := range []string{"close", "reset"} {
 				id := fmt.Sprintf("tcp/tls=%v/%s/%s", useTLS, state, how)
 				rep.Case(id, true)
@@ -481,7 +496,17 @@ func transportEnds(w *world.World, dir string, rep *hx.Report) {
 				}
 				cl := &world.Client{C: cc, R: bufio.NewReaderSize(cc, 1<<16), W: w, Wait: 4 * time.Second}
 				readLine(cl)
-				ok := cl.Cmd("LOGIN life@example.com pw").OK() && cl.Cmd("SELECT INBOX").OK()
+				ok := true
+				if state == "authenticate-long-response" {
+					// the continuation is answered with more octets than the server's read buffer holds and no line end; a
+					// zero-length read on a TCP or TLS connection returns at once, so a loop that waits for the line end spins
+					r := cl.Send("a3", "a3 AUTHENTICATE PLAIN\r\n")
+					ok = strings.HasPrefix(r.Tagged, "+")
+					cc.SetWriteDeadline(time.Now().Add(2 * time.Second))
+					io.WriteString(cc, strings.Repeat("QUJD", 2048+512))
+				} else {
+					ok = cl.Cmd("LOGIN life@example.com pw").OK() && cl.Cmd("SELECT INBOX").OK()
+				}
 				if state == "idle" {
 					r := cl.Send("a5", "a5 IDLE\r\n")
 					ok = ok && strings.HasPrefix(r.Tagged, "+")
@@ -513,6 +538,78 @@ func transportEnds(w *world.World, dir string, rep *hx.Report) {
 type tcpTLS struct{ net.Conn }
 
 func (tcpTLS) IsTLS() bool { return true }
+
+// muteSASL attaches silent clients to a SASL server and returns the function that judges them: each must have been
+// dropped by the server 30 s (the read deadline) after it fell silent, and Shutdown must then return at once
+func muteSASL(w *world.World, dir string, rep *hx.Report, skip bool) func() {
+	if skip {
+		return nil
+	}
+	sock := dir + "/sasl-mute.sock"
+	srv := sasl.NewServer(sock, "", w.Backend.Srv.URL, "example.com")
+	go srv.Start()
+	for i := 0; i < 100; i++ {
+		if c, err := net.Dial("unix", sock); err == nil {
+			c.Close()
+			break
+		}
+		time.Sleep(10 * time.Millisecond)
+	}
+	type mute struct {
+		what string
+		c    net.Conn
+		gone chan time.Duration
+	}
+	var ms []*mute
+	t0 := time.Now()
+	for _, pre := range []struct{ what, send string }{{"a client that never sends anything", ""}, {"a client that sent half a line", "VERSION\t1"}, {"a client that went silent after VERSION", "VERSION\t1\t2\n"}} {
+		c, err := net.Dial("unix", sock)
+		if err != nil {
+			rep.Violate("broken-correspondence", "sasl server", "cannot connect: "+err.Error(), nil)
+			return nil
+		}
+		io.WriteString(c, pre.send)
+		m := &mute{pre.what, c, make(chan time.Duration, 1)}
+		ms = append(ms, m)
+		go func() {
+			buf := make([]byte, 256)
+			for {
+				if _, err := m.c.Read(buf); err != nil {
+					m.gone <- time.Since(t0)
+					return
+				}
+			}
+		}()
+	}
+	return func() {
+		for _, m := range ms {
+			id := "sasl/silent/" + m.what
+			rep.Case(id, true)
+			wait := 34*time.Second - time.Since(t0)
+			if wait < time.Second {
+				wait = time.Second
+			}
+			select {
+			case d := <-m.gone:
+				rep.Hit("sasl-silent:dropped")
+				if d < 25*time.Second {
+					rep.Note("%s was dropped after %v (deadline 30 s)", m.what, d.Round(time.Second))
+				}
+			case <-time.After(wait):
+				rep.Violate("impl-violation", "silence ends the session (Props.C20.silence_closes_partial, SASL 30 s)", fmt.Sprintf("%s is still attached to the SASL service %v after it fell silent (read deadline 30 s)", m.what, time.Since(t0).Round(time.Second)), []string{"scenario " + id})
+			}
+			m.c.Close()
+		}
+		sd := make(chan error, 1)
+		go func() { sd <- srv.Shutdown() }()
+		select {
+		case <-sd:
+			rep.Hit("sasl-shutdown:after-silent-clients")
+		case <-time.After(3 * time.Second):
+			rep.Violate("impl-violation", "Shutdown returns", "sasl.Server.Shutdown has not returned 3 s after the last silent client was closed", []string{"scenario sasl/silent"})
+		}
+	}
+}
 
 func dialLMTP(sock string) (net.Conn, *bufio.Reader, bool) {
 	c, err := net.DialTimeout("unix", sock, time.Second)
